@@ -2085,6 +2085,17 @@ func emit(id string, c caseT, st *hx.Stats) string {
 			}
 		}
 	}
+	if c.Custom >= 5 {
+		// the one generic error such a call returns has the empty path and carries no value: a redactor that happens
+		// to cover a body key "" has nothing to hide in it
+		kept := red[:0:0]
+		for _, p := range red {
+			if p != "" {
+				kept = append(kept, p)
+			}
+		}
+		red = kept
+	}
 	l.Tok("O").Nat(c.Mode).Nat(c.MaxErrors).Nat(c.MaxFields).Strs(red).Bool(single)
 	l.Tok("F").Nat(len(full))
 	for _, f := range full {
@@ -2152,6 +2163,10 @@ func emit(id string, c caseT, st *hx.Stats) string {
 
 	secrets := secretsOf(root, red)
 	caseValidator = nil
+	if c.Interfere == 7 && c.Variant != 1 && c.Variant != 2 {
+		// the call with the per-call schema comes first: it is the first thing the Validator ever sees of this type
+		interfere(&c, rt)
+	}
 	o := observe(&c, rt, secrets)
 	det := !o.clobbered
 	if c.Load > 0 {
